@@ -524,6 +524,7 @@ func (r *replicateChannelManager) AddPartition(ctx context.Context, dbInfo *mode
 		partitionLog.Warn("no handler found")
 		return errors.New("no handler found")
 	}
+	handlers = verifOrderHandlers(collectionID, partitionInfo.PartitionID, handlers)
 
 	firstHandler := handlers[0]
 	targetInfo, err := firstHandler.getCollectionTargetInfo(collectionID)
@@ -620,6 +621,7 @@ func (r *replicateChannelManager) AddPartition(ctx context.Context, dbInfo *mode
 	r.replicatePartitions[collectionID][partitionInfo.PartitionID] = barrier.CloseChan
 	r.partitionLock.Unlock()
 	for _, handler := range handlers {
+		verifYield("partition:handler", handler.targetPChannel, partitionInfo.PartitionID) // the id is the partition's: concurrent announcements stay distinguishable
 		err = handler.AddPartitionInfo(taskID, collectionInfo, partitionInfo, barrier.BarrierSignalChan)
 		if err != nil {
 			return err
